@@ -39,6 +39,15 @@ def handle : Handler := fun op a =>
           let d := (v1.provenance.zip v2.provenance).map (fun p => p.1 + p.2 + 1000)
           s!"ok shape={fmtNats v1.dst} data={fmtInts d}"
         | _ => "nothing")
+  | "v_where3" => orBad do
+      -- cond data k%2, x data 1000+k, y data 2000+k, all broadcast together (variadic broadcast_shape)
+      let s1 ← a.nats "shape"; let s2 ← a.nats "shape2"; let s3 ← a.nats "shape3"
+      pure (match broadcastArraysViews [s1, s2, s3] with
+        | some [v1, v2, v3] =>
+          let d := (v1.provenance.zip (v2.provenance.zip v3.provenance)).map
+            (fun p => if p.1 % 2 != 0 then p.2.1 + 1000 else p.2.2 + 2000)
+          s!"ok shape={fmtNats v1.dst} data={fmtInts d}"
+        | _ => "nothing")
   | "v_pad" => orBad do
       let s ← a.nats "shape"; let w ← a.nats "width"
       pure (match padView s w with | some v => fmtView v | none => "nothing")
